@@ -6,16 +6,17 @@ import (
 	"go/constant"
 	"go/token"
 	"go/types"
+	"golang.org/x/tools/go/packages"
 	"sort"
 	"strings"
 )
 
 type tokAnchors struct {
-	info                                        *types.Info
-	next, peek, consume, readSkip, read         *types.Func
-	readStr, parseOperator, unread              *types.Func
-	run                                         *ast.FuncDecl
-	missing                                     []string
+	info                                *types.Info
+	next, peek, consume, readSkip, read *types.Func
+	readStr, parseOperator, unread      *types.Func
+	run                                 *ast.FuncDecl
+	missing                             []string
 }
 
 func (c *Ctx) tokAnchors() *tokAnchors {
@@ -471,6 +472,7 @@ func ruleR154(c *Ctx) {
 	key = "parser2.Tokenizer.run#superscripts"
 	problems = nil
 	seen := map[rune]bool{}
+	unresolved := false
 	ast.Inspect(ta.run.Body, func(x ast.Node) bool {
 		cc, ok := x.(*ast.CaseClause)
 		if !ok {
@@ -494,27 +496,21 @@ func ruleR154(c *Ctx) {
 					digit = i
 				}
 			}
-			var images []string
-			var typs []string
-			ast.Inspect(cc, func(y ast.Node) bool {
-				cl, ok := y.(*ast.CompositeLit)
-				if !ok || !isNamed(info.TypeOf(cl), modPath, "Token") || len(cl.Elts) < 2 {
-					return true
-				}
-				if id, ok := cl.Elts[0].(*ast.Ident); ok {
-					typs = append(typs, id.Name)
-				}
-				if tv := info.Types[cl.Elts[1]]; tv.Value != nil && tv.Value.Kind() == constant.String {
-					images = append(images, constant.StringVal(tv.Value))
-				}
-				return true
-			})
+			typs, images, resolved := emittedTokens(c, root, info, cc, nil, 0)
+			if !resolved {
+				unresolved = true
+				continue
+			}
 			if len(images) != 2 || images[0] != "^" || images[1] != fmt.Sprint(digit) || len(typs) != 2 || typs[0] != "tOperate" || typs[1] != "tNumber" {
 				problems = append(problems, fmt.Sprintf("%c emits %v %v instead of the operator ^ and the number %d", rune(k), typs, images, digit))
 			}
 		}
 		return true
 	})
+	if len(seen) == 0 || unresolved {
+		c.Undecided(key, ta.run.Pos(), "the superscript digits are not handled by switch cases that emit constant tokens (directly or through a helper): mechanism not recognised")
+		goto exclusion
+	}
 	for _, r := range supers {
 		if !seen[r] {
 			problems = append(problems, fmt.Sprintf("%c is not handled", r))
@@ -522,6 +518,7 @@ func ruleR154(c *Ctx) {
 	}
 	c.Check(len(problems) == 0, key, ta.run.Pos(), "every superscript digit emits ^ and its digit", "superscript handling deviates: "+strings.Join(problems, "; "))
 
+exclusion:
 	// (c) the matchers exclude exactly the superscripts the tokenizer handles
 	key = "parser2#superscript-exclusion"
 	problems = nil
@@ -633,4 +630,85 @@ func ruleR156(c *Ctx) {
 	default:
 		c.OK(key, clause.Pos(), "a quoted identifier is emitted as an identifier token with its exact content, without keyword or text operator lookup")
 	}
+}
+
+// emittedTokens lists the Token literals (type constant, image) that the node
+// creates, in source order; calls to functions of the same package are followed
+// (two levels) with their constant arguments bound to the parameters.
+// resolved is false if an image is not a constant.
+func emittedTokens(c *Ctx, pkg *packages.Package, info *types.Info, n ast.Node, bind map[types.Object]constant.Value, depth int) (typs, images []string, resolved bool) {
+	resolved = true
+	ast.Inspect(n, func(y ast.Node) bool {
+		switch t := y.(type) {
+		case *ast.CompositeLit:
+			if !isNamed(info.TypeOf(t), modPath, "Token") || len(t.Elts) < 2 {
+				return true
+			}
+			if id, ok := t.Elts[0].(*ast.Ident); ok {
+				typs = append(typs, id.Name)
+			} else {
+				typs = append(typs, "?")
+			}
+			var v constant.Value
+			if tv := info.Types[t.Elts[1]]; tv.Value != nil {
+				v = tv.Value
+			} else if id, ok := ast.Unparen(t.Elts[1]).(*ast.Ident); ok && bind != nil {
+				v = bind[info.ObjectOf(id)]
+			}
+			if v != nil && v.Kind() == constant.String {
+				images = append(images, constant.StringVal(v))
+			} else {
+				images = append(images, "?")
+				resolved = false
+			}
+			return false
+		case *ast.CallExpr:
+			if depth >= 2 {
+				return true
+			}
+			cal := Callee(info, t)
+			if cal == nil || cal.Pkg() != pkg.Types {
+				return true
+			}
+			fd := findFuncDecl(pkg, cal)
+			if fd == nil || fd.Body == nil {
+				return true
+			}
+			nb := map[types.Object]constant.Value{}
+			i := 0
+			for _, f := range fd.Type.Params.List {
+				for _, nm := range f.Names {
+					if i < len(t.Args) {
+						if tv := info.Types[t.Args[i]]; tv.Value != nil {
+							nb[info.Defs[nm]] = tv.Value
+						} else if id, ok := ast.Unparen(t.Args[i]).(*ast.Ident); ok && bind != nil {
+							if v, ok := bind[info.ObjectOf(id)]; ok {
+								nb[info.Defs[nm]] = v
+							}
+						}
+					}
+					i++
+				}
+			}
+			ty, im, r := emittedTokens(c, pkg, info, fd.Body, nb, depth+1)
+			typs = append(typs, ty...)
+			images = append(images, im...)
+			if !r {
+				resolved = false
+			}
+		}
+		return true
+	})
+	return
+}
+
+func findFuncDecl(pkg *packages.Package, fn *types.Func) *ast.FuncDecl {
+	for _, f := range pkg.Syntax {
+		for _, d := range f.Decls {
+			if fd, ok := d.(*ast.FuncDecl); ok && pkg.TypesInfo.Defs[fd.Name] == types.Object(fn.Origin()) {
+				return fd
+			}
+		}
+	}
+	return nil
 }
